@@ -415,7 +415,7 @@ func genNumscript(r *rng, n int, tier string, emit func(J)) {
 				switch {
 				case g.r.p(2): // missing
 				case g.r.p(2):
-					vars[v.name] = "!!"
+					vars[v.name] = g.r.pick([]string{"!!", "null", "", " ", "-1", "1e3", "USD -1", "USD", "1/0", "200%", "@a", "a b"})
 				default:
 					vars[v.name] = v.value
 				}
@@ -729,6 +729,7 @@ func execNumscript(in J) J {
 	text, _ := in["text"].(string)
 	prog, err := compiler.Compile(text)
 	if err != nil {
+		_ = err.Error()
 		return J{"err": "compile_error", "stage": "compile"}
 	}
 	first := safeExec(func(J) J { return runCompiled(prog, text, in) }, in)
